@@ -225,14 +225,30 @@ UnitsPtr Model::takeUnits(const std::string &name)
 
 bool Model::replaceUnits(size_t index, const UnitsPtr &units)
 {
-    bool status = false;
-    if (removeUnits(index)) {
-        pFunc()->mUnits.insert(pFunc()->mUnits.begin() + ptrdiff_t(index), units);
-        units->pFunc()->setParent(shared_from_this());
-        status = true;
+    if ((units == nullptr) || (index >= pFunc()->mUnits.size())) {
+        return false;
+    }
+    auto oldUnits = pFunc()->mUnits.at(index);
+    if (oldUnits == units) {
+        return true;
     }
 
-    return status;
+    // A units has only one parent: take the replacement out of the model that currently holds it.
+    auto thisModel = shared_from_this();
+    if (units->hasParent()) {
+        auto otherParent = std::dynamic_pointer_cast<Model>(units->parent());
+        otherParent->removeUnits(units);
+    }
+
+    auto result = std::find(pFunc()->mUnits.begin(), pFunc()->mUnits.end(), oldUnits);
+    if (result == pFunc()->mUnits.end()) {
+        return false;
+    }
+    oldUnits->pFunc()->removeParent();
+    units->pFunc()->setParent(thisModel);
+    pFunc()->mUnits[size_t(result - pFunc()->mUnits.begin())] = units;
+
+    return true;
 }
 
 bool Model::replaceUnits(const std::string &name, const UnitsPtr &units)
